@@ -1,5 +1,6 @@
 import NfcVerif.Lemmas.PduRound
 import NfcVerif.Lemmas.PduSpec
+import NfcVerif.Lemmas.PduReenc
 /-!
 # C11 - LLCP PDU encoding and decoding are mutually consistent
 
@@ -60,21 +61,57 @@ theorem nested_eq_decode (e : Bytes) (p : SPdu) (h : Impl.decodeNested e 0 e.len
     Impl.decode e = .ok (.simple p) :=
   Impl.decodeAt_of_nested h
 
-/-- PARTIAL (types without a parameter list): for an octet string that is too short, or whose
-PDU type is SYMM, UI, DISC, DM, FRMR, I, RR, RNR or an unassigned type (1011, 1111), the decoder
-returns exactly what the independent reading `Spec.decode` of the LLCP frame formats returns
-(`toOpt` forgets the exception, which by `pdu_decode_total` can only be `DecodeError`; so
-`Impl.decode b = error DecodeError ↔ Spec.decode b = none`).
-Missing: PAX, CONNECT, CC, SNL, DPS (TLV lists) and AGF - for those the agreement of
-`Spec.decode` with the real decoder is checked differentially on every run (tie "Spec.decode"). -/
-theorem pdu_impl_refines_spec_partial (b : Bytes) (hb : IsBytes b)
-    (ht : ∀ b0 b1 info, b = b0 :: b1 :: info → plainType ((b0 % 4) * 4 + b1 / 64)) :
-    toOpt (Impl.decode b) = Spec.decode b := by
-  match b, hb, ht with
-  | [], _, _ => rfl
-  | [_], _, _ => rfl
-  | b0 :: b1 :: info, hb, ht =>
-    exact Impl.plain_refines b0 b1 info (hb b0 (by simp)) (hb b1 (by simp)) (ht b0 b1 info rfl)
+/-- For EVERY octet string (all 14 PDU types, unassigned types, aggregates, too short strings) the
+decoder returns exactly what the independent reading `Spec.decode` of the LLCP 1.3 frame formats
+returns (`toOpt` forgets which exception was raised). -/
+theorem pdu_impl_refines_spec (b : Bytes) (hb : IsBytes b) : toOpt (Impl.decode b) = Spec.decode b :=
+  Impl.decode_refines b hb
+
+/-- the same in the two directions of the design: same PDU, and `DecodeError` exactly when the
+format reading rejects the octets -/
+theorem pdu_impl_refines_spec_iff (b : Bytes) (hb : IsBytes b) :
+    (∀ p, Impl.decode b = .ok p ↔ Spec.decode b = some p) ∧
+    (Impl.decode b = .error .decodeError ↔ Spec.decode b = none) := by
+  have h := Impl.decode_refines b hb
+  have ht := Impl.decodeAt_safe b 0 b.length
+  cases hd : Impl.decode b with
+  | ok q =>
+    rw [hd] at h
+    simp only [toOpt_ok] at h
+    constructor
+    · intro p
+      constructor
+      · intro e; cases e; exact h.symm
+      · intro e; rw [← h] at e; cases e; rfl
+    · constructor
+      · intro e; cases e
+      · intro e; rw [← h] at e; cases e
+  | error e =>
+    have he : e = .decodeError := ht e hd
+    subst he
+    rw [hd] at h
+    simp only [toOpt_error] at h
+    constructor
+    · intro p
+      constructor
+      · intro e; cases e
+      · intro e; rw [← h] at e; cases e
+    · exact ⟨fun _ => h.symm, fun _ => rfl⟩
+
+/-- Whatever `decode` returns for an octet string can be encoded again, and decoding that
+encoding returns the same PDU in normal form.  Normal form (`norm`): an optional octet string
+parameter that is present but EMPTY - CONNECT service name, DPS ECPK, DPS RN decoded from a TLV
+with L = 0 - becomes absent; every other field, SDREQ names (also empty ones), payloads and the
+list of aggregated PDUs (each in normal form) are unchanged.  `norm` is idempotent, so a second
+re-encoding changes nothing (`pdu_norm_idem`). -/
+theorem pdu_decode_reencode (b : Bytes) (hb : IsBytes b) (p : Pdu) (h : Impl.decode b = .ok p) :
+    ∃ b', Impl.encode p = .ok b' ∧ Impl.decode b' = .ok (norm p) :=
+  Impl.reencode b hb p h
+
+theorem pdu_norm_idem (p : Pdu) : norm (norm p) = norm p := Impl.norm_idem p
+
+/-- a valid PDU is in normal form, so `pdu_decode_reencode` and `pdu_roundtrip` agree on valid PDUs -/
+theorem pdu_norm_valid (p : Pdu) (h : Valid p) : norm p = p := Impl.norm_of_valid p h
 
 /-! Non-vacuity and the three repaired defects on concrete inputs. -/
 example : Valid (.simple (.connect 4 32 130 0 (some [0x41, 0x42]))) := by simp [Valid, ValidS]
@@ -93,7 +130,12 @@ example : Impl.decode [0, 0x80, 0, 6, 0, 0x80, 0, 2, 0, 0x80] = .error .decodeEr
 example : Impl.decode [0, 0x80, 0, 2, 0x05, 0x41, 0, 3, 0x0F, 0x44, 0x05] =
     .ok (.agf 0 0 [.disc 1 1, .rr 3 4 5]) := by decide
 example : Impl.decode [0x03] = .error .decodeError := by decide
-example : plainType ((0x43 % 4) * 4 + 0x20 / 64) := by simp [plainType]
 example : Spec.decode [0x43, 0x20, 0x35, 1, 2] = some (.simple (.info 16 32 3 5 [1, 2])) := by decide
+example : IsBytes [0x11, 0x20, 6, 0, 2, 2, 0, 5] := by decide
+/-- an empty service name is decoded as `some []` and re-encodes as absent (normal form) -/
+example : Impl.decode [0x11, 0x20, 6, 0, 2, 2, 0, 5] = .ok (.simple (.connect 4 32 133 1 (some []))) := by decide
+example : norm (.simple (.connect 4 32 133 1 (some []))) = .simple (.connect 4 32 133 1 none) := by decide
+example : Impl.encode (.simple (.connect 4 32 133 1 (some []))) = .ok [0x11, 0x20, 2, 2, 0, 5] := by decide
+example : Spec.decode [0, 0x80, 0, 4, 0x11, 0x20, 6, 0] = some (.agf 0 0 [.connect 4 32 128 1 (some [])]) := by decide
 
 end NfcVerif.C11
